@@ -45,7 +45,8 @@ def body(run, a):
     key, blk, t0, t1 = T.var('key', 256), T.var('block', 256), T.var('t0', 64), T.var('t1', 64)
     args = [Buf('key', 32, init=key, writable=False), Sc('t0', 64, t0), Sc('t1', 64, t1), Buf('block', 32, init=blk)]
     res, ex = entry.run(mod, 'h_tf256_enc', args)
-    got = res[0].mem(res[0].named['block'])
+    r_ = [x for x in res if x.status == 'ret'][0]
+    got = r_.mem(r_.named['block'])
     run.canary('encrypt alone is distinguished from the identity', check.concrete_differs([(got, blk)], [], [('key', 256), ('block', 256), ('t0', 64), ('t1', 64)], run.rng) is not None)
     run.bounds = {'key, tweak, block': 'all values (symbolic)', 'sizes': [256, 512, 1024], 'orders': ['decrypt(encrypt(b))', 'encrypt(decrypt(b))'], 'builds': configs}
     run.assumptions += ['the composition is executed back to back on the real code; the linear normal form ((x0+x1)-x1 = x0) and rotate cancellation reduce it; residues go to z3',
